@@ -819,10 +819,17 @@ func (c *Client) logs(ctx context.Context, url string, filter *glf.Filter, bm bl
 	if err != nil {
 		return fmt.Errorf("making logs request: %w", err)
 	}
-	var (
-		hresp = resp[0].(*headerResp)
-		lresp = resp[1].(*logResp)
-	)
+	if len(resp) < 2 {
+		return fmt.Errorf("eth_getLogs: expected 2 responses got %d", len(resp))
+	}
+	hresp, ok := resp[0].(*headerResp)
+	if !ok {
+		return fmt.Errorf("eth_getLogs: malformed eth_getBlockByNumber response")
+	}
+	lresp, ok := resp[1].(*logResp)
+	if !ok {
+		return fmt.Errorf("eth_getLogs: malformed response")
+	}
 	switch {
 	case hresp.Error.Exists():
 		return fmt.Errorf("rpc=eth_getLogs/eth_getBlockByNumber %w", lresp.Error)
@@ -830,9 +837,14 @@ func (c *Client) logs(ctx context.Context, url string, filter *glf.Filter, bm bl
 		return fmt.Errorf("rpc=eth_getLogs %w", lresp.Error)
 	case hresp.Header == nil:
 		return fmt.Errorf("eth backend missing logs for block: %d", toBlock)
+	case lresp.Result == nil:
+		return fmt.Errorf("eth_getLogs: missing result")
 	}
 	var logsByTx = map[key][]logResult{}
 	for i := range lresp.Result {
+		if lresp.Result[i].Log == nil {
+			return fmt.Errorf("eth_getLogs: null log in result")
+		}
 		var (
 			blockNum = uint64(lresp.Result[i].BlockNum)
 			txIdx    = uint64(lresp.Result[i].TxIdx)
